@@ -376,6 +376,31 @@ def _worker_run(task):
     return {"error": None, "task": task, "part": acc.export()}
 
 
+def _isolated_entry(conn, prop_id, assertions, task):
+    _worker_init(prop_id, assertions, None)
+    conn.send(_worker_run(task))
+    conn.close()
+
+
+def run_isolated(ctx, prop_id, assertions, task, timeout=900):
+    """Run one task in a process of its own. Returns (result or None, exit code): None = the process died without an answer."""
+    parent_conn, child_conn = ctx.Pipe(duplex=False)
+    proc = ctx.Process(target=_isolated_entry, args=(child_conn, prop_id, assertions, task))
+    proc.start()
+    child_conn.close()
+    res = None
+    try:
+        if parent_conn.poll(timeout):
+            res = parent_conn.recv()
+    except (EOFError, OSError):
+        res = None
+    proc.join(10)
+    if proc.is_alive():
+        proc.kill()
+        proc.join()
+    return res, proc.exitcode
+
+
 def run_tasks(prop_id, tasks, total):
     """Run tasks grouped by their ``assertions`` setting, each group in its own pool."""
     groups = collections.OrderedDict()
@@ -389,25 +414,44 @@ def run_tasks(prop_id, tasks, total):
     lock = threading.Lock()
     stop_event = ctx.Event()
 
+    def absorb(res):
+        with lock:
+            total.merge(res["part"])
+            if res["error"]:
+                total.errors.append((res["task"], res["error"]))
+            if total.violations and not stop_event.is_set():
+                # the verdict is settled: shards still running stop at their next case, queued ones return at once
+                stop_event.set()
+
     def run_group(assertions, group):
         # the groups (one per ANYTREE_ASSERTIONS setting) run side by side, each in its own pool of worker processes
         nproc = max(1, min(NPROC if len(groups) == 1 else (NPROC * 3) // 4, len(group)))
+        orphaned = []
         with cf.ProcessPoolExecutor(nproc, mp_context=ctx, initializer=_worker_init, initargs=(prop_id, assertions, stop_event)) as pool:
             futures = {pool.submit(_worker_run, task): task for task in sorted(group, key=lambda t: -int(t.get("weight", 1)))}
             for fut in cf.as_completed(futures):
                 try:
                     res = fut.result()
-                except Exception as exc:  # noqa: BLE001 - e.g. BrokenProcessPool when a worker died
+                except cf.process.BrokenProcessPool:
+                    orphaned.append(futures[fut])  # a worker process died: every unfinished task of the pool ends up here
+                    continue
+                except Exception as exc:  # noqa: BLE001
                     with lock:
                         total.errors.append((futures[fut], "worker failed: %s: %s" % (type(exc).__name__, exc)))
                     continue
-                with lock:
-                    total.merge(res["part"])
-                    if res["error"]:
-                        total.errors.append((res["task"], res["error"]))
-                    if total.violations and not stop_event.is_set():
-                        # the verdict is settled: shards still running stop at their next case, queued ones return at once
-                        stop_event.set()
+                absorb(res)
+        # a worker died (the interpreter itself crashed, e.g. a C stack overflow below a raised recursion limit): every task it
+        # took down is run again in a process of its own; a task whose process dies again is the culprit and is reported
+        for task in orphaned:
+            if stop_event.is_set():
+                break
+            res, code = run_isolated(ctx, prop_id, assertions, task)
+            if res is not None:
+                absorb(res)
+                continue
+            with lock:
+                total.violations.append({"clause": "interpreter-crash", "detail": "the interpreter process running task %s died (exit code %s), twice: once in the pool, once alone" % (json.dumps(task, default=repr)[:300], code), "case": {"kind": "crash-task", "task": jsonable(task), "assertions": assertions}})
+                stop_event.set()
 
     threads = [threading.Thread(target=run_group, args=(a, g)) for a, g in groups.items()]
     for th in threads:
